@@ -859,7 +859,9 @@ class Corr:
         if method == "fit":
             def const_func(a, t):
                 return a[0]
-            return self.fit(const_func, plateau_range)[0]
+            # start from the plain average: the default start value 0.1 can satisfy the minimiser's gradient test right away for data of large magnitude
+            start = float(np.mean([item[0].value for item in self.content[plateau_range[0]:plateau_range[1] + 1] if item is not None]))
+            return self.fit(const_func, plateau_range, initial_guess=[start])[0]
         elif method in ["avg", "average", "mean"]:
             returnvalue = np.mean([item[0] for item in self.content[plateau_range[0]:plateau_range[1] + 1] if item is not None])
             return returnvalue
